@@ -12,7 +12,7 @@
 //   2. `text_*` lemmas: for each opaque type, the `tc_*` predicates at (d.ord(), d.has[, d.wt]) ARE the ensures text of
 //      that type's method (copied verbatim from the prelude, `self` := d).
 //   (the methods that came under contract in the units list_more / edge_list_more / weighted_more / map_more are compared in
-//   the units rep_trait_contracts_list / rep_trait_contracts_edge_list / rep_trait_contracts_wm: their std preludes cannot be
+//   the units rep_trait_contracts_list / rep_trait_contracts_edge_list / rep_trait_contracts_wm (weighted_more): their std preludes cannot be
 //   loaded together - e.g. two `assume_specification [bool::then_some]`)
 //   3. one nested module per representation (the fragments define clashing names: ArcsIterator, lex_lt, module-level
 //      `broadcast use`): `lemma_<rep>_meets_<method>`: requires = the representation invariant + the postcondition proved
@@ -720,7 +720,7 @@ proof fn lemma_weighted_out_neighbors_weighted_gap(g: AdjacencyListWeighted<isiz
 }
 } // mod weighted_side
 
-// ---- 3e. AdjacencyMap (unit map_core; out_neighbors / indegree / vertices of unit map_more: see unit rep_trait_contracts_wm) ----
+// ---- 3e. AdjacencyMap (unit map_core; out_neighbors / indegree / vertices of unit map_more restated, see below) ----
 // The vertex set of an AdjacencyMap is its KEY SET; the opaque types model V = 0..ord ("a non-contiguous AdjacencyMap ... is
 // outside this model", prelude/dg_ops.rs).  The lemmas therefore carry the extra hypothesis `map_contiguous(g)`: the keys
 // are exactly 0..ord.  For a non-contiguous map NO trait contract of Dg / Dgo is met (known defects F3 / F6).
@@ -795,6 +795,111 @@ proof fn lemma_map_meets_outdegree(g: AdjacencyMap, u: usize, r: usize)
         }
     }
     lemma_map_size(row, out, f);
+}
+
+// -- the methods under contract in unit map_more (out_neighbors, indegree, vertices).  That fragment is NOT imported: loaded
+// into this crate (or into one of its own next to these lemmas) the `fn_end` hint of map_more's `is_regular` no longer verifies
+// (`assert(self.indeg(ks[i + 1] as int) == c && ..)`, a brittle proof of that unit, not a contract issue).  The three proved
+// postconditions are therefore restated verbatim; they only use `has` / `verts` / `arcs@.dom()` of map_core, plus map_more's
+// `in_keys` / `mm_is_key_seq`, whose one-line definitions are copied below. --
+
+/// OutNeighbors::out_neighbors (proved in map_more: `self.verts().contains(u as int)` - u outside V panics -, protocol,
+/// every item an out-neighbour, every out-neighbour an item, strictly ascending, no repeats).  ALL data clauses of Dg / Dgo
+/// follow unconditionally, for ANY map; contiguity is only needed to read "u in V" as `u < ord`.
+proof fn lemma_map_meets_out_neighbors<I: Iterator<Item = usize>>(g: AdjacencyMap, u: usize, r: I)
+    requires
+        g.verts().contains(u as int),
+        r.obeys_prophetic_iter_laws(),
+        r.decrease() is Some,
+        forall|i: int| 0 <= i < r.remaining().len() ==> g.has(u as int, #[trigger] r.remaining()[i] as int),
+        forall|v: int| #[trigger] g.has(u as int, v) ==> r.remaining().contains(v as usize),
+        forall|i: int, j: int| 0 <= i < j < r.remaining().len() ==> r.remaining()[i] < r.remaining()[j],
+        r.remaining().no_duplicates(),
+    ensures
+        tc_iter(r),
+        tc_nb_sound(phas(g), u, r.remaining()),
+        tc_nb_cover(phas(g), u, r.remaining()),
+        map_contiguous(g) ==> u < g.ord(),
+{
+    let rem = r.remaining();
+    assert forall|i: int| 0 <= i < rem.len() implies phas(g)(u as int, #[trigger] rem[i] as int) by {
+        assert(g.has(u as int, rem[i] as int));
+    }
+    assert forall|v: usize| phas(g)(u as int, v as int) implies #[trigger] rem.contains(v) by {
+        assert(g.has(u as int, v as int));
+        assert(rem.contains((v as int) as usize));
+    }
+    lemma_map_verts_contains(g, u as int);
+}
+
+/// copy of map_more's `AdjacencyMap::in_keys` (`indeg(v)` is its cardinality): the in-neighbours of v, as keys
+spec fn map_in_keys(g: AdjacencyMap, v: int) -> Set<usize> { g.arcs@.dom().filter(|k: usize| g.has(k as int, v)) }
+
+/// Indegree::indegree (proved in map_more: `self.verts().contains(v as int)`, `r == self.indeg(v as int)`, the number of KEYS a
+/// with has(a, v)).  For a contiguous map that is the cardinality of Dgo (vertices below ord with has(a, v)).
+proof fn lemma_map_meets_indegree(g: AdjacencyMap, v: usize, r: usize)
+    requires map_contiguous(g), g.verts().contains(v as int), r == map_in_keys(g, v as int).len(),
+    ensures tc_indegree(g.ord() as nat, phas(g), v, r),
+{
+    lemma_map_verts_contains(g, v as int);
+    let keys = map_in_keys(g, v as int);
+    let ins = tc_in_set(g.ord() as nat, phas(g), v as int);
+    let f = |x: usize| x as int;
+    range_set_properties::<int>(0, g.ord());
+    assert(g.arcs@.dom().finite());
+    lemma_len_subset(keys, g.arcs@.dom());
+    assert(keys.finite());
+    assert(keys.injective_on(f));
+    assert(keys.map(f) =~= ins) by {
+        assert forall|b: int| #![auto] keys.map(f).contains(b) == ins.contains(b) by {
+            keys.lemma_map_contains(f, b);
+            if ins.contains(b) {
+                assert(phas(g)(b, v as int));
+                assert(g.has(b, v as int));
+                assert(g.arcs@.dom().contains(b as usize));
+                assert(keys.contains(b as usize) && f(b as usize) == b);
+            }
+            if keys.map(f).contains(b) {
+                let a = choose|a: usize| keys.contains(a) && b == f(a);
+                assert(g.arcs@.contains_key(a));
+                assert(g.has(a as int, v as int));
+                assert(phas(g)(b, v as int));
+            }
+        }
+    }
+    lemma_map_size(keys, ins, f);
+}
+
+/// copy of map_more's `mm_is_key_seq`: ks lists the vertex set `dom` in ascending order (hence each vertex once)
+spec fn map_is_key_seq(dom: Set<usize>, ks: Seq<usize>) -> bool {
+    &&& ks.to_set() == dom
+    &&& ks.no_duplicates()
+    &&& forall|i: int, j: int| 0 <= i < j < ks.len() ==> #[trigger] ks[i] < #[trigger] ks[j]
+}
+
+/// Vertices::vertices (proved in map_more: protocol, `mm_is_key_seq(self.arcs@.dom(), r.remaining())`,
+/// `r.remaining().len() == self.ord()`; map_positional proves the same listing as `r.remaining() == self.key_seq()`).
+/// For a contiguous map that listing is 0, 1, .., ord-1: the ensures of Dg::vertices / Dgi::vertices / Dgo::vertices.
+proof fn lemma_map_meets_vertices<I: Iterator<Item = usize>>(g: AdjacencyMap, r: I, n: usize)
+    requires
+        map_contiguous(g),
+        n == g.ord(),   // postcondition of `order()`: the order fits usize
+        r.obeys_prophetic_iter_laws(),
+        r.decrease() is Some,
+        map_is_key_seq(g.arcs@.dom(), r.remaining()),
+        r.remaining().len() == g.ord(),
+    ensures
+        tc_iter(r),
+        tc_vertices(g.ord() as nat, r.remaining()),
+        tc_vertices_o(g.ord() as nat, r.remaining()),
+{
+    let rem = r.remaining();
+    assert forall|x: usize| #[trigger] rem.contains(x) == (x < g.ord() as nat) by {
+        assert(rem.contains(x) == rem.to_set().contains(x));
+        assert(g.arcs@.dom().contains(x) == g.arcs@.contains_key(x));
+    }
+    lemma_asc_initial(rem, g.ord() as nat);
+    assert(rem =~= vertex_seq(g.ord() as nat));
 }
 
 /// the gap for a NON-contiguous map: with the vertex ids {0, 2} (order 2) and the arc 0 -> 2 the validity clause of
